@@ -5,6 +5,7 @@ import (
 	"bytes"
 	"fmt"
 	mrand "math/rand/v2"
+	"strings"
 	"testing"
 
 	"github.com/c2FmZQ/ech"
@@ -22,16 +23,18 @@ var aeads = []uint16{hpkex.AES128GCM, hpkex.AES256GCM, hpkex.ChaCha20}
 
 // plan is a (possibly faulty) ECH offer under construction.
 type plan struct {
-	key     echgen.KeyPair
-	aead    uint16
-	inner   *tlswire.ClientHello // true inner hello (session id filled later)
-	start   int                  // compressed run
-	n       int
-	pad     []byte
-	outer   *tlswire.ClientHello // outer hello without ECH
-	marker  []byte               // custom ech_outer_extensions body (nil = derived from the run)
-	marker2 bool                 // add a second marker
-	echPos  int
+	key        echgen.KeyPair
+	aead       uint16
+	inner      *tlswire.ClientHello // true inner hello (session id filled later)
+	start      int                  // compressed run
+	n          int
+	pad        []byte
+	outer      *tlswire.ClientHello // outer hello without ECH
+	marker     []byte               // custom ech_outer_extensions body (nil = derived from the run)
+	marker2    bool                 // add a second marker
+	echPos     int
+	lastSender *hpkex.Sender // the context record() sealed with (first hellos)
+	sender     *hpkex.Sender // set for a retried hello: sealed under the first hello's context with an empty enc
 	// outer-level faults applied after sealing
 	post func(h *tlswire.ClientHello)
 }
@@ -87,14 +90,20 @@ func (p *plan) record() []byte {
 	}
 	encoded := append(enc.Body(), p.pad...)
 	outer := p.outer.Clone()
-	s, err := hpkex.Setup(p.aead, p.key.Priv.PublicKey().Bytes(), echgen.Info(p.key.Config), nil)
-	if err != nil {
-		panic(err)
-	}
 	if p.post != nil {
 		// outer-level faults are part of the AAD: apply before sealing when they do not touch the ECH extension
 		p.post(outer)
 	}
+	if p.sender != nil {
+		p.sender.SetSeq(1)
+		echgen.SealInto(outer, p.echPos, p.sender, p.aead, p.key.ID, nil, encoded)
+		return outer.HelloRecord(0x0303)
+	}
+	s, err := hpkex.Setup(p.aead, p.key.Priv.PublicKey().Bytes(), echgen.Info(p.key.Config), nil)
+	if err != nil {
+		panic(err)
+	}
+	p.lastSender = s
 	echgen.SealInto(outer, p.echPos, s, p.aead, p.key.ID, s.Enc, encoded)
 	return outer.HelloRecord(0x0301)
 }
@@ -447,7 +456,9 @@ func TestCheck(t *testing.T) {
 			return
 		}
 		// marker-rewriting faults overwrite each other: allow at most one of them
-		isMarker := func(f fault) bool { return f.rule[:2] == "R8" || f.rule[:2] == "R9" || f.rule[:3] == "R10" || f.rule[:3] == "R11" || f.rule[:3] == "R12" }
+		isMarker := func(f fault) bool {
+			return f.rule[:2] == "R8" || f.rule[:2] == "R9" || f.rule[:3] == "R10" || f.rule[:3] == "R11" || f.rule[:3] == "R12"
+		}
 		if isMarker(a) && isMarker(b) {
 			return
 		}
@@ -465,6 +476,74 @@ func TestCheck(t *testing.T) {
 		r.Count("multi_fault_cases", 1)
 		r.Eval(fmt.Sprintf("multi|%s|%s|%s|%s", a.rule, b.rule, pa, pb))
 	})
+
+	// the same rules on a RETRIED hello: accepted first hello, HelloRetryRequest, then a second hello that breaks one rule
+	nr := r.N(1500, 100000)
+	r.Parallel("retry", nr, func(i int, rng *mrand.Rand) {
+		f := fs[i%len(fs)]
+		if strings.HasPrefix(f.rule, "R1:") {
+			return // covered on first hellos; on a retry the same parser path applies before any retry logic
+		}
+		key := keys[rng.IntN(len(keys))]
+		aead := aeads[rng.IntN(3)]
+		ks := []ech.Key{key.TLSKey()}
+		p1 := newPlan(rng, key, aead, rng.IntN(2) == 0)
+		flow, out := echrun.StartFlow(p1.record(), ks)
+		if out.Err != nil || !out.Accepted {
+			r.Inconclusive("first hello of a retry case not accepted (%v)", out.Err)
+			return
+		}
+		if _, _, err := flow.Backend(tlswire.HRRRecord(p1.outer.SessionID, 0x0017)); err != nil {
+			r.Inconclusive("HRR write failed: %v", err)
+			return
+		}
+		var p2 *plan
+		var param string
+		applied := false
+		for attempt := 0; attempt < 8 && !applied; attempt++ {
+			p2 = newPlan(rng, key, aead, true)
+			p2.outer.SessionID = append([]byte{}, p1.outer.SessionID...)
+			p2.sender = p1.lastSender
+			applied = true
+			if f.apply != nil {
+				param, applied = f.apply(rng, p2)
+			}
+		}
+		if !applied {
+			return
+		}
+		rec := p2.record()
+		if f.rawPost != nil {
+			rec, param = f.rawPost(rng, rec)
+		}
+		c := map[string]any{"rule": f.rule, "param": param, "phase": "retry", "second_record": mon.Hex(rec)}
+		r.Guard("retry", i, f.rule+":retry", c, func() {
+			wOff := len(flow.Tap.Written())
+			got, err := flow.Client(rec)
+			cls := echrun.Class(err)
+			r.Count("retry_rule_"+f.rule, 1)
+			r.Eval(fmt.Sprintf("retry|%s|%s|%d|%d", f.rule, param, p2.start, p2.n))
+			if err == nil {
+				c["forwarded"] = mon.Hex(got)
+				r.Violate("retry", i, f.rule+":retry:not-aborted", fmt.Sprintf("a retried hello breaking %s was forwarded instead of being aborted", f.rule), c)
+				return
+			}
+			allowed := append([]string{}, f.allowed...)
+			if !in(cls, allowed) {
+				r.Violate("retry", i, f.rule+":retry:wrong-error-class:"+cls, fmt.Sprintf("error class %s (%v), allowed %v", cls, err, allowed), c)
+			}
+			w := flow.Tap.Written()[wOff:]
+			if want := tlswire.Alert(2, echrun.AlertCode(cls)); !bytes.Equal(w, want) {
+				c["written"] = mon.Hex(w)
+				r.Violate("retry", i, "alert:retry:wrong-or-missing", fmt.Sprintf("client received % x after the aborted retry, want % x", w, want), c)
+			}
+			if flow.Tap.Closed() == 0 {
+				r.Violate("retry", i, "alert:retry:transport-not-closed", "transport not closed after the aborted retry", c)
+			}
+			r.Count("retry_aborted_correctly", 1)
+		})
+	})
+	r.Floor("retry_aborted_correctly", int64(nr/3))
 
 	// R14: every truncation / inflation of every length-prefixed vector of the outer hello
 	nt := r.N(6, 50)
